@@ -45,6 +45,7 @@ class Conn:
         self.__dict__.update(kw)
         self.produced = []     # (tout, value, seq, step)
         self.delivered = set()
+        self.delivered_main = set()
 
 
 class Ref:
@@ -217,11 +218,12 @@ class Ref:
             return 'init'
         return f'{cz[0]} of {cz[1].sid}@{fmt(cz[1].tau)}'
 
-    def check_inputs(self, s, tau, inputs):
+    def expected_inputs(self, s, tau, main_only=False):
+        """reference data model for a step of s at tau.  main_only=True evaluates the same rules with every sub-time
+        tier ignored (used only to classify a mismatch as known finding P11)."""
         sid = s.sid
         exp = {}
         skip = set()
-        kinds = set()
         for c in self.conns:
             if c.ds != sid or c.async_only:
                 continue
@@ -230,11 +232,18 @@ class Ref:
             if c.lenient:
                 skip.add(slot)
                 continue
+            delivered = c.delivered_main if main_only else c.delivered
+
+            def due(to):
+                d = self.shift(c, to)
+                if main_only:
+                    return bool(d[0] <= tau[0])
+                return bool(lex_le(d, tau))
             if c.persistent:
                 val = None if c.initial is SENT else c.initial
                 best = -1
                 for (to, v, seq, st) in c.produced:
-                    if seq > best and bool(lex_le(self.shift(c, to), tau)):
+                    if seq > best and due(to):
                         best, val = seq, v
                 if val is not None:
                     exp[slot] = val
@@ -242,17 +251,22 @@ class Ref:
                 best = -1
                 val = None
                 for (to, v, seq, st) in c.produced:
-                    if seq in c.delivered:
+                    if seq in delivered:
                         continue
-                    if bool(lex_le(self.shift(c, to), tau)):
-                        c.delivered.add(seq)
+                    if due(to):
+                        delivered.add(seq)
                         if seq > best:
                             best, val = seq, v
                 if best >= 0:
                     exp[slot] = val
-            kinds.add(self.kind(c))
         for slot in skip:
             exp.pop(slot, None)
+        return exp, skip
+
+    def check_inputs(self, s, tau, inputs):
+        sid = s.sid
+        exp, skip = self.expected_inputs(s, tau)
+        exp_main, _ = self.expected_inputs(s, tau, main_only=True)
         got = {}
         for eid, attrs in inputs.items():
             for attr, srcs in attrs.items():
@@ -267,7 +281,8 @@ class Ref:
             ckinds = sorted({self.kind(c) for c in self.conns if c.ds == sid and (c.de, c.da, f"{c.ss}.{c.se}") in bad})
             self.eng.alarm(self.prefix + 'C03.inputs', f'{sid}@{fmt(tau)}: expected {self._show(exp)} got {self._show(got)}',
                            {'conn_kinds': ckinds, 'weak_only': bool(ckinds) and all('weak' in k for k in ckinds),
-                            'fp': ['C03.inputs', ckinds]})
+                            'subtime_only': got == exp_main and len(tau) > 1,
+                            'fp': ['C03.inputs', ckinds, got == exp_main and len(tau) > 1]})
 
     @staticmethod
     def _show(d):
